@@ -50,6 +50,9 @@ mod netconf;
 mod policies;
 mod task;
 
+#[cfg(feature = "verif")]
+pub mod verif;
+
 // silence unused dev-dependency warnings
 #[cfg(test)]
 mod deps {
